@@ -238,8 +238,20 @@ def main():
                     i = sorted(diff)[0]
                     exp_ = lazy[idx[s_]]
                     on_cycle = all(exp_.get(x) in (V.E('CIRC'), {'k': 'anyerr'}) for x in diff)
+                    g_ = gens[s_]
+                    # whether the static analysis falsely marks a cell whose cycle closes only
+                    # through an unselected branch (recorded finding) can itself depend on the
+                    # order: one run has the expected value, the other the mark.  Only for the
+                    # random workbooks - the rings and fans (every fifth seed) are resolved by
+                    # the library under every order
+                    circ_ = V.E('CIRC')
+                    false_mark = (s_ % 5 != 0) and all(
+                        exp_.get(x) is not None and exp_.get(x) != circ_ and
+                        any(v_ is not None and V.matches(exp_[x], v_) for v_ in (ref.get(x), obs.get(x))) and
+                        any(has_lazy(g_, y) for y in upstream(g_, x)) for x in diff)
                     rep.violation({'cat': 'which-cell-of-an-unavoidable-cycle-shows-the-mark-depends-on-order'}
                                   if on_cycle else
+                                  {'cat': 'cycle-through-unselected-branches-not-resolved'} if false_mark else
                                   {'kind': 'hash-seed-or-path-dependence', 'seed': s_, 'cell': i},
                                   {'workbook_seed': s_, 'cell': i,
                                    'run_a': {'hashseed': ref_hs, 'path': ref_path,
